@@ -261,14 +261,14 @@ CLAIMED = {
               'reorder dimension, stack, arithmetic, mask) as functions on files of nested arrays; theorems: tabulated, cell-mapped '
               'and cell-zipped data always have the declared shape (any rank); well-formedness is PRESERVED by mask, insertDimension, '
               'subsetVariables, renameVariable, renameDimension(s) (several at once: swaps, chains and merges are refused), file '
-              'arithmetic, reorderDimensions and removeSingleton (mask_wf, insertDim_wf, subset_wf, renameVar_wf, renameDims_wf, '
-              'renameDim_wf, binop_wf, reorder_wf, removeSingleton_wf: for all files, any rank); together '
+              'arithmetic, reorderDimensions, removeSingleton and applyAlongDimensions (mask_wf, insertDim_wf, subset_wf, renameVar_wf, renameDims_wf, '
+              'renameDim_wf, binop_wf, reorder_wf, removeSingleton_wf, apply_wf: for all files, any rank; apply_wf for files without empty dimensions and functions that do not empty an axis); together '
               'with the shape theorems of C02 (selection), C03 (fiberwise) and C04 (concatenation). On every run random SEQUENCES '
               'of 1-6 operations (incl. out-of-domain arguments) are executed on the real code and on the model and compared '
               'completely after every step, and the well-formedness predicate is evaluated on every real intermediate file; '
               'IOAPI files run the C10 operation sequences under the same predicate plus "TSTEP is unlimited". '
               'Genuine defects repaired by fix: commits.'),
-        note=BASE_NOTE + 'WF-preservation is proved per operation for nine operations; for slice/apply/stack the file-level statement is not proved (their array-level shape theorems are in C02/C03/C04); interpDimension and eval are exercised in C17/C06; IOAPI files are compared with the IOAPI model of C10 and judged by the real-object predicate.',
+        note=BASE_NOTE + 'WF-preservation is proved per operation for ten operations; for slice/stack the file-level statement is not proved (their array-level shape theorems are in C02/C03/C04); interpDimension and eval are exercised in C17/C06; IOAPI files are compared with the IOAPI model of C10 and judged by the real-object predicate.',
         technique='Lean 4 proof (shape lemmas by mutual structural induction) + model/implementation correspondence over operation sequences + well-formedness oracle',
         design='§7 C01'),
 }
